@@ -46,6 +46,9 @@
 #include "include/sm4_gcm.h"
 #include "intel-ipsec-mb.h"
 #include "include/error.h"
+#ifdef IMB_VERIF
+#include "include/verif_hooks.h"
+#endif
 #include "include/snow3g_submit.h"
 #include "include/job_api_gcm.h"
 #include "include/job_api_snowv.h"
@@ -3788,12 +3791,28 @@ static const submit_flush_fn_t tab_flush_hash[] = {
 __forceinline IMB_JOB *
 SUBMIT_JOB_HASH(IMB_MGR *state, IMB_JOB *job)
 {
+#ifdef IMB_VERIF
+        {
+                IMB_JOB *verif_ret = tab_submit_hash[job->hash_alg](state, job);
+
+                IMB_VERIF_STAGE(state, job, IMB_VERIF_SUBMIT_HASH, job->hash_alg, verif_ret);
+                return verif_ret;
+        }
+#endif
         return tab_submit_hash[job->hash_alg](state, job);
 }
 
 __forceinline IMB_JOB *
 FLUSH_JOB_HASH(IMB_MGR *state, IMB_JOB *job)
 {
+#ifdef IMB_VERIF
+        {
+                IMB_JOB *verif_ret = tab_flush_hash[job->hash_alg](state, job);
+
+                IMB_VERIF_STAGE(state, job, IMB_VERIF_FLUSH_HASH, job->hash_alg, verif_ret);
+                return verif_ret;
+        }
+#endif
         return tab_flush_hash[job->hash_alg](state, job);
 }
 
@@ -3821,6 +3840,14 @@ SUBMIT_JOB_CIPHER(IMB_MGR *state, IMB_JOB *job)
 
         IMB_ASSERT(ENCRYPT_DECRYPT_GAP >= IMB_CIPHER_NUM);
 
+#ifdef IMB_VERIF
+        {
+                IMB_JOB *verif_ret = tab_submit_cipher[idx](state, job);
+
+                IMB_VERIF_STAGE(state, job, IMB_VERIF_SUBMIT_CIPHER, idx, verif_ret);
+                return verif_ret;
+        }
+#endif
         return tab_submit_cipher[idx](state, job);
 }
 
@@ -3829,6 +3856,14 @@ FLUSH_JOB_CIPHER(IMB_MGR *state, IMB_JOB *job)
 {
         const unsigned idx = calc_cipher_tab_index(job);
 
+#ifdef IMB_VERIF
+        {
+                IMB_JOB *verif_ret = tab_flush_cipher[idx](state, job);
+
+                IMB_VERIF_STAGE(state, job, IMB_VERIF_FLUSH_CIPHER, idx, verif_ret);
+                return verif_ret;
+        }
+#endif
         return tab_flush_cipher[idx](state, job);
 }
 
@@ -4034,6 +4069,14 @@ CALL_SUBMIT_CIPHER(IMB_MGR *state, IMB_JOB *job)
 {
         const unsigned c_idx = job->suite_id[0];
 
+#ifdef IMB_VERIF
+        {
+                IMB_JOB *verif_ret = tab_submit_cipher[c_idx](state, job);
+
+                IMB_VERIF_STAGE(state, job, IMB_VERIF_SUBMIT_CIPHER | IMB_VERIF_VIA_SUITE_ID, c_idx, verif_ret);
+                return verif_ret;
+        }
+#endif
         return tab_submit_cipher[c_idx](state, job);
 }
 
@@ -4042,6 +4085,14 @@ CALL_FLUSH_CIPHER(IMB_MGR *state, IMB_JOB *job)
 {
         const unsigned c_idx = job->suite_id[0];
 
+#ifdef IMB_VERIF
+        {
+                IMB_JOB *verif_ret = tab_flush_cipher[c_idx](state, job);
+
+                IMB_VERIF_STAGE(state, job, IMB_VERIF_FLUSH_CIPHER | IMB_VERIF_VIA_SUITE_ID, c_idx, verif_ret);
+                return verif_ret;
+        }
+#endif
         return tab_flush_cipher[c_idx](state, job);
 }
 
@@ -4050,6 +4101,14 @@ CALL_SUBMIT_HASH(IMB_MGR *state, IMB_JOB *job)
 {
         const unsigned h_idx = job->suite_id[1];
 
+#ifdef IMB_VERIF
+        {
+                IMB_JOB *verif_ret = tab_submit_hash[h_idx](state, job);
+
+                IMB_VERIF_STAGE(state, job, IMB_VERIF_SUBMIT_HASH | IMB_VERIF_VIA_SUITE_ID, h_idx, verif_ret);
+                return verif_ret;
+        }
+#endif
         return tab_submit_hash[h_idx](state, job);
 }
 
@@ -4058,6 +4117,14 @@ CALL_FLUSH_HASH(IMB_MGR *state, IMB_JOB *job)
 {
         const unsigned h_idx = job->suite_id[1];
 
+#ifdef IMB_VERIF
+        {
+                IMB_JOB *verif_ret = tab_flush_hash[h_idx](state, job);
+
+                IMB_VERIF_STAGE(state, job, IMB_VERIF_FLUSH_HASH | IMB_VERIF_VIA_SUITE_ID, h_idx, verif_ret);
+                return verif_ret;
+        }
+#endif
         return tab_flush_hash[h_idx](state, job);
 }
 
